@@ -103,12 +103,50 @@ struct inside_t
     overlap_t& m_o;
 };
 
-// runs body(t) on `threads` threads released together (spin barrier on an atomic); body must not throw
+// bounded rendezvous: a thread that reaches round r waits (spin + yield, at most a few ms) until all threads have reached it.
+// On an oversubscribed machine a released thread may not get a CPU before the others have finished; meeting again at every
+// repetition makes it likely that the calls on the shared object really overlap.  Never blocks for good: it only delays.
+class rendezvous_t
+{
+public:
+    rendezvous_t(const int threads, const int rounds)
+        : m_threads(threads)
+        , m_rounds(std::max(1, rounds))
+        , m_counts(new std::atomic<int>[static_cast<size_t>(std::max(1, rounds))])
+    {
+        for (int r = 0; r < m_rounds; ++r)
+        {
+            m_counts[static_cast<size_t>(r)].store(0);
+        }
+    }
+
+    void meet(const int round) const
+    {
+        if (round < 0 || round >= m_rounds)
+        {
+            return;
+        }
+        auto& count = m_counts[static_cast<size_t>(round)];
+        count.fetch_add(1);
+        for (int i = 0; i < 400 && count.load(std::memory_order_acquire) < m_threads; ++i)
+        {
+            spin(2000);
+            std::this_thread::yield(); // gives the CPU to a thread of this case that has not been scheduled yet
+        }
+    }
+
+private:
+    int                                 m_threads, m_rounds;
+    std::unique_ptr<std::atomic<int>[]> m_counts;
+};
+
+// runs body(t, rendezvous) on `threads` threads released together (spin barrier on an atomic); body must not throw
 template <class tbody>
-void run_together(const int threads, const std::vector<int>& stagger, const tbody& body)
+void run_together(const int threads, const std::vector<int>& stagger, const int rounds, const tbody& body)
 {
     std::atomic<int>         ready{0};
     std::atomic<bool>        go{false};
+    const rendezvous_t       rendezvous(threads, rounds);
     std::vector<std::thread> pool;
     pool.reserve(static_cast<size_t>(threads));
     for (int t = 0; t < threads; ++t)
@@ -122,7 +160,7 @@ void run_together(const int threads, const std::vector<int>& stagger, const tbod
                     std::this_thread::yield();
                 }
                 spin(stagger.empty() ? 0 : stagger[static_cast<size_t>(t) % stagger.size()]);
-                body(t);
+                body(t, rendezvous);
             });
     }
     while (ready.load() < threads)
@@ -576,14 +614,15 @@ verdict_t check_solver(const solver_case_t& c, ctx_t& ctx)
     // together
     overlap_t                    overlap;
     std::vector<thread_report_t> reports(n);
-    run_together(c.threads, c.stagger,
-                 [&](int t)
+    run_together(c.threads, c.stagger, c.reps,
+                 [&](int t, const rendezvous_t& rendezvous)
                  {
                      const auto ut     = static_cast<size_t>(t);
                      const auto logger = nano::make_null_logger();
                      auto&      rep    = reports[ut];
                      for (int r = 0; r < c.reps; ++r)
                      {
+                         rendezvous.meet(r);
                          outcome_t got;
                          {
                              const inside_t inside(overlap);
@@ -635,7 +674,8 @@ struct loss_case_t
     std::vector<int>              labels;  // classification: positive label (single-label) / bit mask (multi-label), per sample
     std::vector<double>           outputs; // used cyclically
     int                           threads{2}, reps{1};
-    std::vector<std::vector<int>> ops; // per thread: 0 value, 1 error, 2 vgrad
+    std::vector<std::vector<int>> ops;    // per thread: 0 value, 1 error, 2 vgrad
+    std::vector<int>              ranges; // per thread: (begin, length) draws selecting the thread's own slice of the shared tensors
     std::vector<int>              stagger;
 
     template <class A>
@@ -653,6 +693,7 @@ struct loss_case_t
         a("threads", threads);
         a("reps", reps);
         a("ops", ops);
+        a("ranges", ranges);
         a("stagger", stagger);
     }
 };
@@ -674,7 +715,7 @@ rc::Gen<loss_case_t> gen_loss_case()
                 rc::gen::tuple(gen::range<int>(0, 255), gen::real(0.05, 0.95), gen::vec(size, 3.0),
                                rc::gen::container<std::vector<int>>(static_cast<size_t>(samples), gen::range<int>(0, (1 << 27) - 1)), gen::vec(size, 4.0),
                                rc::gen::element(1, 3, 10, 40), rc::gen::container<std::vector<std::vector<int>>>(static_cast<size_t>(threads), oplist),
-                               gen_stagger(threads)),
+                               gen_stagger(threads), rc::gen::container<std::vector<int>>(static_cast<size_t>(2 * threads), rc::gen::oneOf(rc::gen::just(0), gen::range<int>(0, 1000)))),
                 [=](const auto& t)
                 {
                     loss_case_t c;
@@ -691,12 +732,13 @@ rc::Gen<loss_case_t> gen_loss_case()
                     c.reps    = std::get<5>(t);
                     c.ops     = std::get<6>(t);
                     c.stagger = std::get<7>(t);
+                    c.ranges  = std::get<8>(t);
                     return c;
                 });
         });
 }
 
-outcome_t run_loss(const nano::loss_t& loss, const nano::tensor4d_t& targets, const nano::tensor4d_t& outputs, int op, nano::tensor1d_t& vbuffer,
+outcome_t run_loss(const nano::loss_t& loss, const nano::tensor4d_cmap_t& targets, const nano::tensor4d_cmap_t& outputs, int op, nano::tensor1d_t& vbuffer,
                    nano::tensor4d_t& gbuffer)
 {
     return record(
@@ -724,7 +766,7 @@ verdict_t check_loss(const loss_case_t& c, ctx_t& ctx)
 {
     const auto n = static_cast<size_t>(c.threads);
     if (c.threads < 2 || c.threads > 8 || c.reps < 1 || c.reps > 100 || c.samples < 1 || c.samples > 1000 || c.d0 < 1 || c.d1 < 1 || c.d2 < 1 ||
-        c.d0 * c.d1 * c.d2 > 64 || c.targets.empty() || c.outputs.empty() || c.labels.empty() || c.ops.size() != n || c.loss < 0)
+        c.d0 * c.d1 * c.d2 > 64 || c.targets.empty() || c.outputs.empty() || c.labels.empty() || c.ops.size() != n || c.ranges.size() != 2 * n || c.loss < 0)
     {
         return verdict_t::discard("malformed");
     }
@@ -770,21 +812,33 @@ verdict_t check_loss(const loss_case_t& c, ctx_t& ctx)
     const nano::tensor4d_t& ctargets = targets;
     const nano::tensor4d_t& coutputs = outputs;
 
+    // every thread works on its own slice [begin, end) of the shared tensors (draw 0 0 = all samples)
+    std::vector<std::pair<tensor_size_t, tensor_size_t>> ranges(n);
+    for (size_t t = 0; t < n; ++t)
+    {
+        const auto begin = static_cast<tensor_size_t>(std::abs(c.ranges[2 * t + 0]) % c.samples);
+        const auto rest  = static_cast<tensor_size_t>(c.samples) - begin;
+        const auto len   = c.ranges[2 * t + 1] == 0 ? rest : 1 + static_cast<tensor_size_t>(std::abs(c.ranges[2 * t + 1])) % rest;
+        ranges[t]        = {begin, begin + len};
+    }
+
     // alone
-    std::vector<outcome_t> alone(3);
+    std::vector<std::vector<outcome_t>> alone(n, std::vector<outcome_t>(3));
+    for (size_t t = 0; t < n; ++t)
     {
         nano::tensor1d_t vbuffer;
         nano::tensor4d_t gbuffer;
         for (int op = 0; op < 3; ++op)
         {
-            alone[static_cast<size_t>(op)] = run_loss(loss, ctargets, coutputs, op, vbuffer, gbuffer);
+            alone[t][static_cast<size_t>(op)] =
+                run_loss(loss, ctargets.slice(ranges[t].first, ranges[t].second), coutputs.slice(ranges[t].first, ranges[t].second), op, vbuffer, gbuffer);
         }
     }
 
     overlap_t                    overlap;
     std::vector<thread_report_t> reports(n);
-    run_together(c.threads, c.stagger,
-                 [&](int t)
+    run_together(c.threads, c.stagger, c.reps,
+                 [&](int t, const rendezvous_t& rendezvous)
                  {
                      const auto       ut  = static_cast<size_t>(t);
                      auto&            rep = reports[ut];
@@ -792,20 +846,22 @@ verdict_t check_loss(const loss_case_t& c, ctx_t& ctx)
                      nano::tensor4d_t gbuffer;
                      for (int r = 0; r < c.reps; ++r)
                      {
+                         rendezvous.meet(r);
                          for (const auto rawop : c.ops[ut])
                          {
                              const int op = ((rawop % 3) + 3) % 3;
                              outcome_t got;
                              {
                                  const inside_t inside(overlap);
-                                 got = run_loss(loss, ctargets, coutputs, op, vbuffer, gbuffer);
+                                 got = run_loss(loss, ctargets.slice(ranges[ut].first, ranges[ut].second), coutputs.slice(ranges[ut].first, ranges[ut].second), op,
+                                                vbuffer, gbuffer);
                              }
                              ++rep.calls;
-                             if (!rep.bad && !same_outcome(alone[static_cast<size_t>(op)], got))
+                             if (!rep.bad && !same_outcome(alone[ut][static_cast<size_t>(op)], got))
                              {
                                  rep.bad   = true;
                                  rep.where = op == 0 ? "value" : op == 1 ? "error" : "vgrad";
-                                 rep.msg   = cat("thread ", t, " repetition ", r, ": ", describe(alone[static_cast<size_t>(op)], got));
+                                 rep.msg   = cat("thread ", t, " repetition ", r, ": ", describe(alone[ut][static_cast<size_t>(op)], got));
                              }
                          }
                      }
@@ -818,14 +874,18 @@ verdict_t check_loss(const loss_case_t& c, ctx_t& ctx)
         }
     }
 
-    bool nonzero = false;
-    for (const auto v : alone[0].values)
+    bool nonzero = false, threw = false;
+    for (const auto& a : alone)
     {
-        nonzero = nonzero || v != 0.0;
+        for (const auto v : a[0].values)
+        {
+            nonzero = nonzero || v != 0.0;
+        }
+        threw = threw || a[0].threw || a[1].threw || a[2].threw;
     }
     ctx.label(cat("loss:", id));
     ctx.label(cat("overlap:", std::min(overlap.peak.load(), 4), overlap.peak.load() >= 4 ? "+" : ""));
-    ctx.label_if(alone[0].threw || alone[1].threw || alone[2].threw, "loss-throws");
+    ctx.label_if(threw, "loss-throws");
     ctx.maximum("peak-in-flight", overlap.peak.load());
     ctx.nontrivial = overlap.peak.load() >= 2 && nonzero && c.samples >= 2;
     return verdict_t::ok();
@@ -1179,14 +1239,15 @@ verdict_t check_dataset(const dataset_case_t& c, ctx_t& ctx)
 
     overlap_t                    overlap;
     std::vector<thread_report_t> reports(n);
-    run_together(c.threads, c.stagger,
-                 [&](int t)
+    run_together(c.threads, c.stagger, c.reps,
+                 [&](int t, const rendezvous_t& rendezvous)
                  {
                      const auto     ut  = static_cast<size_t>(t);
                      auto&          rep = reports[ut];
                      view_buffers_t b; // this thread's buffers, re-used across calls
                      for (int r = 0; r < c.reps; ++r)
                      {
+                         rendezvous.meet(r);
                          for (size_t k = 0; k < c.ops[ut].size(); ++k)
                          {
                              const int op = ((c.ops[ut][k] % 4) + 4) % 4;
@@ -1301,9 +1362,13 @@ rc::Gen<model_cfg_t> gen_model_cfg(int model, bool continuous_only, bool converg
     const auto wl = continuous_only ? rc::gen::element(0, 1, 2, 7, 0, 1, 2, 7, 3) : rc::gen::element(0, 1, 2, 3, 4, 5, 6, 7);
     return rc::gen::map(
         rc::gen::tuple(
-            rc::gen::tuple(gen::range<int>(0, 41), rc::gen::element(0.5, 0.1, 0.9, 0.25), gen::range<int>(0, 3), gen::range<int>(1, 3), gen::range<int>(1, 6),
+            // fits that are compared across thread counts favour the smooth losses (index mod 4 / mod 7 / mod 6 selects the loss)
+            rc::gen::tuple(converge ? rc::gen::element(0, 1, 8, 9, 4, 5, 12, 15, 2, 3, 6) : gen::range<int>(0, 41), rc::gen::element(0.5, 0.1, 0.9, 0.25), gen::range<int>(0, 3),
+                           gen::range<int>(1, 3), gen::range<int>(1, 6),
                            gen::range<int>(0, 3), rc::gen::element(10, 16, 100, 33)),
-            rc::gen::tuple(rc::gen::mapcat(gen::range<int>(1, 3), [wl](int k) { return rc::gen::container<std::vector<int>>(static_cast<size_t>(k), wl); }),
+            rc::gen::tuple(continuous_only ? rc::gen::oneOf(rc::gen::element(std::vector<int>{0}, std::vector<int>{0, 3}, std::vector<int>{0, 0}),
+                                                            rc::gen::mapcat(gen::range<int>(1, 3), [wl](int k) { return rc::gen::container<std::vector<int>>(static_cast<size_t>(k), wl); }))
+                                           : rc::gen::mapcat(gen::range<int>(1, 3), [wl](int k) { return rc::gen::container<std::vector<int>>(static_cast<size_t>(k), wl); }),
                            gen::range<int>(0, 1), rc::gen::element(0, 0, 0, 0, 2, 2, 2, 1), rc::gen::element(0, 0, 1, 2, 3, 4), rc::gen::element(1.0, 0.5, 0.8), gen::range<int>(0, 1024),
                            gen::range<int>(1, 3), rc::gen::element(1e-6, 1e-4, 1e-2)),
             rc::gen::tuple(gen::range<int>(0, 1), rc::gen::element(2, 2, 3), gen::range<int>(0, 1024), rc::gen::element(80, 50, 66), rc::gen::element(0, 0, 0, 1),
@@ -1348,6 +1413,10 @@ nano::rwlearner_t make_wlearner(const model_cfg_t& m, int id)
     const auto wid = static_cast<size_t>(((id % 8) + 8) % 8);
     auto       w   = nano::wlearner_t::all().get(wlearner_ids[wid]);
     w->parameter("wlearner::criterion") = static_cast<nano::wlearner_criterion>(((m.criterion % 4) + 4) % 4);
+    if (std::getenv("C18_DEBUG") != nullptr)
+    {
+        w->logger(nano::make_stderr_logger());
+    }
     if (wid == 7)
     {
         w->parameter("wlearner::dtree::max_depth") = m.dtree_depth;
@@ -1396,6 +1465,10 @@ nano::ml::params_t make_fit_params(const model_cfg_t& m)
 void remove_logs(const nano::ml::result_t& result)
 {
     std::error_code ec;
+    if (std::getenv("C18_DEBUG") != nullptr)
+    {
+        return;
+    }
     for (tensor_size_t trial = 0; trial < result.trials(); ++trial)
     {
         for (tensor_size_t fold = 0; fold < result.folds(); ++fold)
@@ -1656,14 +1729,7 @@ verdict_t check_predict(const predict_case_t& c, ctx_t& ctx)
     add_identity_generators(rdataset);
     const nano::dataset_t& dataset = rdataset;
 
-    // NB (outside C18, see notes/C18.md "side observations"): boosting with wscale=tboost crashes (empty scale vector,
-    // src/gboost/model.cpp:159) when a look-up-table weak learner wins on a feature without any given value; such a
-    // fit is not needed to obtain a fitted model, so table learners are boosted with the plain scaling here.
-    auto cfg = c.cfg;
-    if (cfg.is_gboost() && std::any_of(cfg.wpool.begin(), cfg.wpool.end(), [](int id) { const int w = ((id % 8) + 8) % 8; return w >= 3 && w <= 6; }))
-    {
-        cfg.wscale = 0;
-    }
+    const auto& cfg = c.cfg;
 
     fitted_t fitted;
     try
@@ -1698,14 +1764,15 @@ verdict_t check_predict(const predict_case_t& c, ctx_t& ctx)
     std::vector<thread_report_t> reports(n);
     watch_dataset_pool(&dataset);
     install_delays(c.delays);
-    run_together(c.threads, c.stagger,
-                 [&](int t)
+    run_together(c.threads, c.stagger, c.reps,
+                 [&](int t, const rendezvous_t& rendezvous)
                  {
                      const auto       ut  = static_cast<size_t>(t);
                      auto&            rep = reports[ut];
                      nano::tensor4d_t buffer;
                      for (int r = 0; r < c.reps; ++r)
                      {
+                         rendezvous.meet(r);
                          outcome_t got;
                          {
                              const inside_t inside(overlap);
@@ -1786,9 +1853,9 @@ struct fit_case_t
 
 rc::Gen<fit_case_t> gen_fit_case()
 {
-    // linear 4 : boosting 4
+    // linear 6 (ordinary and ridge twice: their objective is smooth) : boosting 6
     return rc::gen::mapcat(
-        rc::gen::tuple(rc::gen::element(8, 9, 10, 11, 12, 12, 12, 12), gen::range<int>(30, 80), gen::range<int>(2, 6), rc::gen::element(0, 0, 0, 2, 2, 3)),
+        rc::gen::tuple(rc::gen::element(8, 10, 8, 10, 9, 11, 12, 12, 12, 12, 12, 12), gen::range<int>(30, 80), gen::range<int>(2, 6), rc::gen::element(0, 0, 0, 2, 2, 3)),
         [](const std::tuple<int, int, int, int>& msfk)
         {
             const int  model = std::get<0>(msfk), n = std::get<1>(msfk), f = std::get<2>(msfk), classes = std::get<3>(msfk);
@@ -1916,8 +1983,7 @@ verdict_t check_fit(const fit_case_t& c, ctx_t& ctx)
         return verdict_t::discard("malformed");
     }
 
-    std::vector<fit_outcome_t> outcomes;
-    for (const auto code : c.configs)
+    const auto fit_config = [&](const int code)
     {
         const int pool = threads_of(code / 3), cap = threads_of(code % 3);
         nv::rng_state().store(static_cast<uint64_t>(c.rng) * 2U + 1U);
@@ -1952,38 +2018,49 @@ verdict_t check_fit(const fit_case_t& c, ctx_t& ctx)
             remove_delays();
             watch_dataset_pool(nullptr);
         } // the dataset (and its pool) is destroyed before the next configuration
-        outcomes.push_back(std::move(o));
-    }
-    ::setenv("NANO_VERIF_MAX_THREADS", "8", 1);
+        ::setenv("NANO_VERIF_MAX_THREADS", "8", 1);
+        return o;
+    };
 
-    const std::string kind = c.cfg.is_linear() ? std::string(linear_ids[c.cfg.model - 8]) : std::string("gboost");
-    const auto&       ref  = outcomes.front();
+    std::vector<fit_outcome_t> outcomes;
+    for (const auto code : c.configs)
+    {
+        outcomes.push_back(fit_config(code));
+    }
+
+    const std::string kind  = c.cfg.is_linear() ? std::string(linear_ids[c.cfg.model - 8]) : std::string("gboost");
+    const std::string group = c.cfg.is_linear() ? "linear" : "gboost";
+    const auto&       ref   = outcomes.front();
     const auto describe_config = [&](size_t k) { return cat("dataset pool ", threads_of(c.configs[k] / 3), " + NANO_VERIF_MAX_THREADS ", threads_of(c.configs[k] % 3)); };
 
-    double worst = 0.0;
-    size_t worst_at = 0;
-    for (size_t k = 1; k < outcomes.size(); ++k)
+    // deviation of one outcome from the reference: structural (exception / weak learners / selected features / shape) or
+    // numeric (largest prediction difference in units of the tolerance 1e-5 * max(1, max|prediction|))
+    struct deviation_t
     {
-        const auto& o = outcomes[k];
+        std::string structural; // empty: none
+        double      ratio{0.0};
+    };
+    const auto deviation_of = [&](const fit_outcome_t& o)
+    {
+        deviation_t d;
         if (o.threw != ref.threw)
         {
-            return verdict_t::violation(cat("C18/fit/", c.cfg.is_linear() ? "linear" : "gboost", "/exception-differs"),
-                                        cat(kind, ": ", describe_config(0), ref.threw ? " threw " + ref.what : std::string(" fitted"), "; ", describe_config(k),
-                                            o.threw ? " threw " + o.what : std::string(" fitted")));
+            d.structural = "exception-differs";
+            return d;
         }
         if (ref.threw)
         {
-            continue;
+            return d;
         }
         if (c.cfg.is_gboost() && (o.nwlearners != ref.nwlearners || o.features != ref.features))
         {
-            return verdict_t::violation("C18/fit/gboost/selected-features-differ",
-                                        cat(describe_config(0), ": ", ref.nwlearners, " weak learners on ", ref.features.size(), " features; ", describe_config(k), ": ",
-                                            o.nwlearners, " weak learners on ", o.features.size(), " features"));
+            d.structural = "selected-features-differ";
+            return d;
         }
         if (o.predictions.size() != ref.predictions.size())
         {
-            return verdict_t::violation(cat("C18/fit/", c.cfg.is_linear() ? "linear" : "gboost", "/prediction-shape"), cat(kind));
+            d.structural = "prediction-shape";
+            return d;
         }
         double scale = 1.0;
         for (const auto p : ref.predictions)
@@ -1993,29 +2070,65 @@ verdict_t check_fit(const fit_case_t& c, ctx_t& ctx)
         for (size_t i = 0; i < o.predictions.size(); ++i)
         {
             const auto a = ref.predictions[i], b = o.predictions[i];
-            double     ratio = 0.0;
             if (std::isfinite(a) && std::isfinite(b))
             {
-                ratio = std::fabs(a - b) / (1e-5 * scale);
+                d.ratio = std::max(d.ratio, std::fabs(a - b) / (1e-5 * scale));
             }
             else if (!((std::isnan(a) && std::isnan(b)) || a == b))
             {
-                ratio = 1e30; // finite in one configuration, not in the other
-            }
-            if (ratio > worst)
-            {
-                worst    = ratio;
-                worst_at = k;
+                d.ratio = 1e30; // finite in one configuration, not in the other
             }
         }
-    }
-    ctx.maximum("prediction-deviation/tolerance", worst);
-    if (worst > 10.0)
+        return d;
+    };
+    const auto describe_outcome = [&](const fit_outcome_t& o)
     {
-        return verdict_t::violation(cat("C18/fit/", c.cfg.is_linear() ? "linear" : "gboost", "/predictions-differ"),
-                                    cat(kind, ": ", describe_config(0), " vs ", describe_config(worst_at), ": deviation = ", worst, " x (1e-5 relative)"));
+        return o.threw ? "threw " + o.what : c.cfg.is_gboost() ? cat(o.nwlearners, " weak learners on ", o.features.size(), " features") : std::string("fitted");
+    };
+
+    // Which comparisons the property supports (notes/C18.md, "domain of the fit comparison"):
+    //  * a non-smooth objective (mae / pinball / hinge losses, L1 regularisation) makes the line-search discontinuous in
+    //    its inputs: re-association noise of 1e-16 in a function value decides secant steps (observed: steps of 1e14), so
+    //    "up to floating-point re-association" does not bound the difference.  Such fits are run for the race check
+    //    (ThreadSanitizer) and for exceptions only.
+    const auto loss        = make_loss(c.cfg, target_kind);
+    const bool l1          = c.cfg.model == 9 || c.cfg.model == 11; // lasso, elastic net
+    //  * weak learners that score PARTITIONS of the samples (stump, hinge, decision tree) routinely meet candidates that
+    //    are tied in exact arithmetic (two features that split a small node / a bootstrap sample the same way, perfect
+    //    fits with rss = 0 up to rounding): the winner is decided by rounding noise of 1e-13 in the scores, hence by the
+    //    re-association noise in the gradients.  Boosting with such learners is run for the race check only; the
+    //    schedule dependence of the weak learners themselves is decided bit-exactly by the "wfit" sub-check.
+    const bool partitions  = c.cfg.is_gboost() && std::any_of(c.cfg.wpool.begin(), c.cfg.wpool.end(), [](int id) { const int w = ((id % 8) + 8) % 8; return w == 1 || w == 2 || w == 7; });
+    const bool comparable  = loss->smooth() && !l1 && !partitions;
+
+    double      worst = 0.0;
+    size_t      worst_at = 0;
+    std::string structural;
+    for (size_t k = 1; k < outcomes.size(); ++k)
+    {
+        const auto d = deviation_of(outcomes[k]);
+        if (!d.structural.empty() && structural.empty())
+        {
+            structural = d.structural;
+            worst_at   = k;
+        }
+        if (structural.empty() && d.ratio > worst)
+        {
+            worst    = d.ratio;
+            worst_at = k;
+        }
     }
-    if (worst > 1.0)
+    const auto cls = cat(kind, (loss->smooth() && !l1) ? "" : "/nonsmooth", partitions ? "/partition-learners" : "");
+    ctx.maximum(cat("deviation/", cls), structural.empty() ? worst : 1e9);
+
+    if (comparable && (!structural.empty() || worst > 10.0))
+    {
+        const auto sig = cat("C18/fit/", group, "/", structural.empty() ? "predictions-differ" : structural);
+        const auto msg = cat(kind, " loss ", loss_id_of(c.cfg, target_kind), ": ", describe_config(0), " ", describe_outcome(ref), "; ", describe_config(worst_at), " ",
+                             describe_outcome(outcomes[worst_at]), structural.empty() ? cat("; deviation = ", worst, " x (1e-5 relative)") : std::string());
+        return verdict_t::violation(sig, msg);
+    }
+    if (comparable && worst > 1.0)
     {
         return verdict_t::borderline(cat("fit/", kind, "/predictions"));
     }
@@ -2046,23 +2159,300 @@ verdict_t check_fit(const fit_case_t& c, ctx_t& ctx)
     ctx.label_if(c.cfg.is_gboost() && ref.nwlearners == 0, "gboost-bias-only");
     ctx.label_if(c.cfg.is_gboost() && ref.nwlearners >= 2, "gboost-2+-weak-learners");
     ctx.label_if(ref.trials > 1, "tuned");
+    ctx.label(comparable ? "models-compared" : partitions ? "partition-scoring-learners:race-check-only" : "non-smooth-objective:race-check-only");
     for (size_t k = 0; k < c.configs.size(); ++k)
     {
         ctx.label(cat("config:", threads_of(c.configs[k] / 3), "x", threads_of(c.configs[k] % 3)));
     }
     ctx.maximum("peak-fold-trial-tasks", peak_outer);
-    ctx.nontrivial = !ref.threw && distinct_threads && peak_outer >= 2 && nonzero && (!c.cfg.is_gboost() || ref.nwlearners >= 1);
+    ctx.nontrivial = !ref.threw && comparable && distinct_threads && peak_outer >= 2 && nonzero && (!c.cfg.is_gboost() || ref.nwlearners >= 1);
+    return verdict_t::ok();
+}
+// ===================================================================================================
+// 6. wfit: fitting ONE weak learner on a shared dataset gives the same learner whatever the dataset's pool size
+//    (the gradients are an input, every per-feature score is computed by one thread: no floating-point re-association
+//    is involved, so the comparison is bit-exact)
+// ===================================================================================================
+struct wfit_case_t
+{
+    int                 samples{20}, features{2};
+    std::vector<double> inputs; // samples x features (before the planted duplicates)
+    std::vector<int>    dup;    // per feature: 0 independent, 1 = 3*previous+0.5, 2 = previous^3 (same order => same partitions)
+    int                 cats{0};
+    std::vector<int>    labels; // samples x cats, 3 classes
+    int                 catdup{0}; // the second categorical feature is a relabelled copy of the first one
+    int                 tdim{1};
+    std::vector<double> gradients;
+    int                 grad_style{0}; // 0 reals, 1 sign only, 2 three values
+    int                 wlearner{1}, criterion{0}, dtree_depth{2}, dtree_split{3};
+    std::vector<int>    excluded; // samples not used for the fit
+    std::vector<int>    pools;    // codes 0,1,2 = 1,2,16 threads; the first one (serial) is the reference
+    int                 reps{3};
+    std::vector<int>    delays;
+
+    template <class A>
+    void io(A& a)
+    {
+        a("samples", samples);
+        a("features", features);
+        a("inputs", inputs);
+        a("dup", dup);
+        a("cats", cats);
+        a("labels", labels);
+        a("catdup", catdup);
+        a("tdim", tdim);
+        a("gradients", gradients);
+        a("grad_style", grad_style);
+        a("wlearner", wlearner);
+        a("criterion", criterion);
+        a("dtree_depth", dtree_depth);
+        a("dtree_split", dtree_split);
+        a("excluded", excluded);
+        a("pools", pools);
+        a("reps", reps);
+        a("delays", delays);
+    }
+};
+
+rc::Gen<wfit_case_t> gen_wfit_case()
+{
+    return rc::gen::mapcat(
+        rc::gen::tuple(gen::range<int>(0, 7), rc::gen::oneOf(gen::range<int>(6, 16), gen::range<int>(12, 60)), gen::range<int>(2, 6), gen::range<int>(0, 2),
+                       rc::gen::element(1, 1, 2)),
+        [](const std::tuple<int, int, int, int, int>& wnfct)
+        {
+            const int  w = std::get<0>(wnfct), n = std::get<1>(wnfct), f = std::get<2>(wnfct), tdim = std::get<4>(wnfct);
+            const int  cats = (w >= 3 && w <= 6) ? std::max(1, std::get<3>(wnfct)) : std::get<3>(wnfct); // the look-up tables need a categorical feature
+            const auto excluded = rc::gen::oneOf(rc::gen::just(std::vector<int>{}),
+                                                 rc::gen::mapcat(gen::range<int>(0, n / 3), [n](int k) { return rc::gen::container<std::vector<int>>(static_cast<size_t>(k), gen::range<int>(0, n - 1)); }));
+            return rc::gen::map(
+                rc::gen::tuple(rc::gen::noShrink(gen::vec(static_cast<size_t>(n * f), 2.0)), rc::gen::container<std::vector<int>>(static_cast<size_t>(f), rc::gen::element(0, 0, 1, 2)),
+                               rc::gen::container<std::vector<int>>(static_cast<size_t>(n * std::max(1, cats)), gen::range<int>(0, 2)), gen::range<int>(0, 1),
+                               rc::gen::noShrink(gen::vec(static_cast<size_t>(n * tdim), 2.0)), gen::range<int>(0, 2),
+                               rc::gen::tuple(gen::range<int>(0, 3), gen::range<int>(1, 3), gen::range<int>(1, 6)), excluded,
+                               rc::gen::element(std::vector<int>{0, 1}, std::vector<int>{0, 2}, std::vector<int>{0, 1, 2}), rc::gen::element(1, 3, 10, 20), gen_delays()),
+                [=](const auto& t)
+                {
+                    wfit_case_t c;
+                    c.samples     = n;
+                    c.features    = f;
+                    c.cats        = cats;
+                    c.tdim        = tdim;
+                    c.wlearner    = w;
+                    c.inputs      = std::get<0>(t);
+                    c.dup         = std::get<1>(t);
+                    c.labels      = std::get<2>(t);
+                    c.catdup      = std::get<3>(t);
+                    c.gradients   = std::get<4>(t);
+                    c.grad_style  = std::get<5>(t);
+                    c.criterion   = std::get<0>(std::get<6>(t));
+                    c.dtree_depth = std::get<1>(std::get<6>(t));
+                    c.dtree_split = std::get<2>(std::get<6>(t));
+                    c.excluded    = std::get<7>(t);
+                    c.pools       = std::get<8>(t);
+                    c.reps        = std::get<9>(t);
+                    c.delays      = std::get<10>(t);
+                    return c;
+                });
+        });
+}
+
+struct wfit_outcome_t
+{
+    outcome_t        call;  // score, then the predictions on all samples
+    std::vector<int> features;
+    bool             fitted{false};
+    double           score{0.0};
+};
+
+verdict_t check_wfit(const wfit_case_t& c, ctx_t& ctx)
+{
+    if (c.samples < 4 || c.samples > 500 || c.features < 1 || c.features > 16 || c.inputs.size() != static_cast<size_t>(c.samples * c.features) ||
+        c.dup.size() != static_cast<size_t>(c.features) || c.cats < 0 || c.cats > 2 || c.labels.size() < static_cast<size_t>(c.samples * c.cats) || c.tdim < 1 ||
+        c.tdim > 4 || c.gradients.empty() || c.pools.size() < 2 || c.pools.size() > 4 || c.reps < 1 || c.reps > 100 || c.wlearner < 0 || c.wlearner > 7)
+    {
+        return verdict_t::discard("malformed");
+    }
+    for (const auto code : c.pools)
+    {
+        if (code < 0 || code > 2)
+        {
+            return verdict_t::discard("malformed");
+        }
+    }
+    nv::rng_state().store(12345U);
+    ::setenv("NANO_VERIF_MAX_THREADS", "16", 1);
+
+    // the data: continuous features (some of them monotone transforms of their predecessor), categorical ones, a dummy target
+    data_spec_t d;
+    d.samples = c.samples;
+    const auto n = static_cast<size_t>(c.samples);
+    for (int j = 0; j < c.features; ++j)
+    {
+        d.types.push_back(static_cast<int>(nano::feature_type::float64));
+        d.dims.insert(d.dims.end(), {1, 1, 1});
+        d.classes.push_back(0);
+        d.values.emplace_back(n);
+        d.mask.emplace_back(n, 1);
+        for (size_t i = 0; i < n; ++i)
+        {
+            const auto own  = c.inputs[i * static_cast<size_t>(c.features) + static_cast<size_t>(j)];
+            const auto prev = j > 0 ? d.values[static_cast<size_t>(j - 1)][i] : 0.0;
+            d.values.back()[i] = (j == 0 || c.dup[static_cast<size_t>(j)] == 0) ? own : c.dup[static_cast<size_t>(j)] == 1 ? 3.0 * prev + 0.5 : prev * prev * prev;
+        }
+    }
+    for (int k = 0; k < c.cats; ++k)
+    {
+        d.types.push_back(static_cast<int>(nano::feature_type::sclass));
+        d.dims.insert(d.dims.end(), {1, 1, 1});
+        d.classes.push_back(3);
+        d.values.emplace_back(n);
+        d.mask.emplace_back(n, 1);
+        for (size_t i = 0; i < n; ++i)
+        {
+            const auto own   = ((c.labels[i * static_cast<size_t>(c.cats) + static_cast<size_t>(k)] % 3) + 3) % 3;
+            const auto first = ((c.labels[i * static_cast<size_t>(c.cats)] % 3) + 3) % 3;
+            d.values.back()[i] = static_cast<double>((k == 1 && c.catdup != 0) ? (first + 1) % 3 : own);
+        }
+    }
+    d.target = static_cast<int>(d.types.size());
+    d.types.push_back(static_cast<int>(nano::feature_type::float64));
+    d.dims.insert(d.dims.end(), {c.tdim, 1, 1});
+    d.classes.push_back(0);
+    d.values.emplace_back(n * static_cast<size_t>(c.tdim), 0.0);
+    d.mask.emplace_back(n, 1);
+    if (!d.valid())
+    {
+        return verdict_t::discard("malformed");
+    }
+
+    std::vector<char> drop(n, 0);
+    for (const auto e : c.excluded)
+    {
+        if (e >= 0 && e < c.samples)
+        {
+            drop[static_cast<size_t>(e)] = 1;
+        }
+    }
+    std::vector<int> keep;
+    for (int i = 0; i < c.samples; ++i)
+    {
+        if (drop[static_cast<size_t>(i)] == 0)
+        {
+            keep.push_back(i);
+        }
+    }
+    if (keep.size() < 3)
+    {
+        return verdict_t::discard("too-few-samples");
+    }
+    const auto fit_samples = to_indices(keep);
+    const auto all_samples = nano::arange(0, c.samples);
+
+    nano::tensor4d_t grads(c.samples, c.tdim, 1, 1);
+    for (tensor_size_t i = 0; i < grads.size(); ++i)
+    {
+        const auto g    = c.gradients[static_cast<size_t>(i) % c.gradients.size()];
+        grads.data()[i] = c.grad_style == 0 ? g : c.grad_style == 1 ? (g < 0.0 ? -1.0 : 1.0) : (g < -0.6 ? -1.0 : g > 0.6 ? 1.0 : 0.0);
+    }
+
+    model_cfg_t m;
+    m.criterion   = c.criterion;
+    m.dtree_depth = c.dtree_depth;
+    m.dtree_split = c.dtree_split;
+
+    const auto source = ds::make_datasource(d);
+    const auto fit_once = [&](const nano::dataset_t& dataset)
+    {
+        wfit_outcome_t o;
+        auto           w = make_wlearner(m, c.wlearner);
+        o.call           = record(
+            [&](std::vector<double>& out)
+            {
+                o.score  = w->fit(dataset, fit_samples, grads);
+                o.fitted = o.score != nano::wlearner_t::no_fit_score();
+                out.push_back(o.score);
+                if (o.fitted)
+                {
+                    const auto features = w->features();
+                    for (tensor_size_t i = 0; i < features.size(); ++i)
+                    {
+                        o.features.push_back(static_cast<int>(features(i)));
+                    }
+                    append(out, w->predict(dataset, all_samples));
+                }
+            });
+        return o;
+    };
+
+    wfit_outcome_t ref;
+    bool           have_ref = false;
+    int            peak     = 0;
+    for (const auto code : c.pools)
+    {
+        const int  pool     = threads_of(code);
+        auto       rdataset = nano::dataset_t{*source, static_cast<size_t>(pool)};
+        add_identity_generators(rdataset);
+        const nano::dataset_t& dataset = rdataset;
+        watch_dataset_pool(&dataset);
+        install_delays(c.delays);
+        for (int r = 0; r < (pool == 1 ? std::min(c.reps, 2) : c.reps); ++r)
+        {
+            const auto o = fit_once(dataset);
+            if (!have_ref)
+            {
+                ref      = o;
+                have_ref = true;
+                continue;
+            }
+            if (!same_outcome(ref.call, o.call) || ref.features != o.features)
+            {
+                remove_delays();
+                watch_dataset_pool(nullptr);
+                const auto msg = cat(wlearner_ids[c.wlearner], ": dataset pool 1 -> score ", ref.score, " features ", ref.features.size() == 0 ? -1 : ref.features[0],
+                                     "; dataset pool ", pool, " (fit #", r, ") -> score ", o.score, " features ", o.features.size() == 0 ? -1 : o.features[0], "; ",
+                                     describe(ref.call, o.call));
+                // Known-finding predicate (notes/C18.md, finding F-A): both fits report bit-identical scores but different
+                // learners, i.e. an exact score tie between candidates was broken differently (min_reduce keeps the candidate
+                // of the worker thread with the smaller id; which worker sees which feature is up to the scheduler)
+                if (!ref.call.threw && !o.call.threw && ref.fitted && o.fitted && same_bits(ref.score, o.score))
+                {
+                    return verdict_t::known("C18/wfit/score-tie-broken-by-worker-id", msg);
+                }
+                return verdict_t::violation(cat("C18/wfit/", ref.call.threw != o.call.threw ? "exception-differs" : "result-differs"), msg);
+            }
+        }
+        peak = std::max(peak, g_tasks_all.peak.load());
+        remove_delays();
+        watch_dataset_pool(nullptr);
+    }
+
+    bool planted = c.cats == 2 && c.catdup != 0;
+    for (int j = 1; j < c.features; ++j)
+    {
+        planted = planted || c.dup[static_cast<size_t>(j)] != 0;
+    }
+    ctx.label(cat("wlearner:", wlearner_ids[c.wlearner]));
+    ctx.label_if(!ref.fitted, "no-feature-fits");
+    ctx.label_if(ref.call.threw, "fit-throws");
+    ctx.label_if(planted, "planted-order-duplicates");
+    ctx.label_if(peak >= 2, "pool-tasks-overlap");
+    ctx.label_if(c.grad_style != 0, "few-valued-gradients");
+    ctx.maximum("peak-pool-tasks", peak);
+    ctx.nontrivial = ref.fitted && !ref.call.threw && peak >= 2;
     return verdict_t::ok();
 }
 } // namespace
 
 int main(int argc, char** argv)
 {
+    // weights: share of the case budget (per-case cost plain / tsan in ms: solver 50/135, loss 13/35, dataset 11/35, predict 17/65, fit 110/430, wfit 30/50)
     suite_t suite("C18");
-    suite.add<solver_case_t>("solver", gen_solver_case, check_solver, 1.0);
-    suite.add<loss_case_t>("loss", gen_loss_case, check_loss, 1.0);
-    suite.add<dataset_case_t>("dataset", gen_dataset_case, check_dataset, 1.0);
-    suite.add<predict_case_t>("predict", gen_predict_case, check_predict, 1.0);
-    suite.add<fit_case_t>("fit", gen_fit_case, check_fit, 1.0);
+    suite.add<solver_case_t>("solver", gen_solver_case, check_solver, 3.0);
+    suite.add<loss_case_t>("loss", gen_loss_case, check_loss, 2.0);
+    suite.add<dataset_case_t>("dataset", gen_dataset_case, check_dataset, 2.0);
+    suite.add<predict_case_t>("predict", gen_predict_case, check_predict, 3.0);
+    suite.add<fit_case_t>("fit", gen_fit_case, check_fit, 1.5);
+    suite.add<wfit_case_t>("wfit", gen_wfit_case, check_wfit, 2.0);
     return suite.main(argc, argv);
 }
